@@ -126,22 +126,39 @@ Fixpoint ack_q (ack cwnd ssth pw : Z) (q : list pending) : list pending * Z * bo
       else (q, cwnd, false)
   end.
 
+(* ---------- choices the property leaves to the implementation ----------
+   r_ig: an Nr that is AHEAD of our own next Ns acknowledges messages we never sent; no honest peer produces it
+         (C16_honest_ack_never_ahead).  The implementation may process it like any Nr (/repo HEAD, r_ig = false) or
+         ignore the acknowledgement part of the message (r_ig = true).
+   r_zd: the deadline of the delayed acknowledgement armed by a received message: any time not later than
+         now + zlbDelay (/repo HEAD: exactly now + zlbDelay, r_zd = None; keeping an earlier pending deadline is
+         admissible too).  A value outside the bound falls back to now + zlbDelay. *)
+Record rchoice := mkR { r_ig : bool; r_zd : option Z }.
+Definition head_choice : rchoice := mkR false None.
+Definition zlb_choice (f : conf) (now : Z) (zd : option Z) : Z :=
+  match zd with
+  | Some d => if d <=? now + f_zlb f then d else now + f_zlb f
+  | None => now + f_zlb f
+  end.
+
 (* the error of the driveSend inside ackThrough is swallowed (`_ = c.driveSend(now)`) *)
-Definition ack_through (f : conf) (c : chan) (ack now : Z) (fj : option nat) : chan * list pkt * option pkt :=
+Definition ack_through (f : conf) (c : chan) (ack now : Z) (fj : option nat) (ig : bool)
+  : chan * list pkt * option pkt :=
+  if ig && seq_less (c_ns c) ack then (c, [], None) else
   let '(q', cw, progressed) := ack_q ack (c_cwnd c) (c_ssth c) (c_pw c) (c_q c) in
   let c1 := mkC (c_ns c) (c_nr c) cw (c_ssth c) (c_pw c) q' (c_rto c) (c_zlb c) in
   if progressed then drive_send f c1 now fj else (c1, [], None).
 
 (* ---------- Recv ---------- *)
-Definition recv (f : conf) (c : chan) (ns nr now : Z) (fj : option nat)
+Definition recv (f : conf) (c : chan) (ns nr now : Z) (fj : option nat) (rc : rchoice)
   : chan * list pkt * option pkt * bool :=
-  let '(c1, o, e) := ack_through f c nr now fj in
+  let '(c1, o, e) := ack_through f c nr now fj (r_ig rc) in
   if negb (ns =? c_nr c1) then
     (mkC (c_ns c1) (c_nr c1) (c_cwnd c1) (c_ssth c1) (c_pw c1) (c_q c1) (c_rto c1)
-         (Some (now + f_zlb f)), o, e, false)
+         (Some (zlb_choice f now (r_zd rc))), o, e, false)
   else
     (mkC (c_ns c1) (u16 (c_nr c1 + 1)) (c_cwnd c1) (c_ssth c1) (c_pw c1) (c_q c1) (c_rto c1)
-         (Some (now + f_zlb f)), o, e, true).
+         (Some (zlb_choice f now (r_zd rc))), o, e, true).
 
 (* ---------- Tick ---------- *)
 Definition pow2 (k : Z) : Z := if k <? 0 then 1 else 2 ^ k.
@@ -195,13 +212,13 @@ Definition tick (f : conf) (c : chan) (now : Z) : chan * list pkt * bool * optio
    zlb_recv = true : the rule before that fix — a ZLB went through Recv like any message and was dropped
                      afterwards; kept only for the historical refuted theorem, not used by the correspondence
    last component: the message is handed to the protocol machine *)
-Definition dispatch (zlb_recv : bool) (f : conf) (c : chan) (p : pkt) (now : Z) (fj : option nat)
+Definition dispatch (zlb_recv : bool) (f : conf) (c : chan) (p : pkt) (now : Z) (fj : option nat) (rc : rchoice)
   : chan * list pkt * option pkt * bool :=
   match k_body p with
-  | Some _ => recv f c (k_ns p) (k_nr p) now fj
+  | Some _ => recv f c (k_ns p) (k_nr p) now fj rc
   | None =>
-      if zlb_recv then let '(c', o, e, _) := recv f c (k_ns p) (k_nr p) now fj in (c', o, e, false)
-      else let '(c', o, e) := ack_through f c (k_nr p) now fj in (c', o, e, false)
+      if zlb_recv then let '(c', o, e, _) := recv f c (k_ns p) (k_nr p) now fj rc in (c', o, e, false)
+      else let '(c', o, e) := ack_through f c (k_nr p) now fj (r_ig rc) in (c', o, e, false)
   end.
 
 (* ---------- an endpoint with its logs ---------- *)
@@ -236,8 +253,9 @@ Definition ep_submit (e : endpoint) (body sid now : Z) (fj : option nat) : endpo
   (mkE (e_f e) c' (e_sent e ++ o) (e_sub e ++ [body]) (e_del e) (e_acked e) (e_dead e) (e_wmax e),
    OSubmit o er).
 
-Definition ep_deliver (zlb_recv : bool) (e : endpoint) (p : pkt) (now : Z) (fj : option nat) : endpoint * obs :=
-  let '(c', o, er, handed) := dispatch zlb_recv (e_f e) (e_ch e) p now fj in
+Definition ep_deliver (zlb_recv : bool) (e : endpoint) (p : pkt) (now : Z) (fj : option nat) (rc : rchoice)
+  : endpoint * obs :=
+  let '(c', o, er, handed) := dispatch zlb_recv (e_f e) (e_ch e) p now fj rc in
   (mkE (e_f e) c' (e_sent e ++ o) (e_sub e)
        (match k_body p with Some b => if handed then e_del e ++ [b] else e_del e | None => e_del e end)
        (e_acked e ++ acked_range e (length (c_q c'))) (e_dead e) (e_wmax e),
@@ -273,21 +291,21 @@ Definition set_ep (s : sys) (x : side) (e : endpoint) : sys :=
 Inductive event :=
 (* fj / drops: which writes of the send callback fail during this operation (None / [] = none) *)
 | Submit (x : side) (body sid now : Z) (fj : option nat)     (* x's protocol machine sends a message *)
-| Deliver (x : side) (idx : nat) (now : Z) (fj : option nat) (* the network hands x the idx-th packet its peer
+| Deliver (x : side) (idx : nat) (now : Z) (fj : option nat) (rc : rchoice) (* the network hands x the idx-th packet its peer
                                               ever wrote successfully; never = drop, twice = duplicate, any order = reorder/delay *)
-| Inject (x : side) (p : pkt) (now : Z) (fj : option nat)    (* a packet the peer never sent (hostile network) *)
+| Inject (x : side) (p : pkt) (now : Z) (fj : option nat) (rc : rchoice)   (* a packet the peer never sent (hostile network) *)
 | Tick (x : side) (now : Z) (drops : list nat)
 | SetWin (x : side) (rws : Z).
 
 Definition step (zlb_recv : bool) (s : sys) (ev : event) : sys * obs :=
   match ev with
   | Submit x body sid now fj => let '(e, o) := ep_submit (ep s x) body sid now fj in (set_ep s x e, o)
-  | Deliver x idx now fj =>
+  | Deliver x idx now fj rc =>
       match nth_error (e_sent (ep s (peer x))) idx with
-      | Some p => let '(e, o) := ep_deliver zlb_recv (ep s x) p now fj in (set_ep s x e, o)
+      | Some p => let '(e, o) := ep_deliver zlb_recv (ep s x) p now fj rc in (set_ep s x e, o)
       | None => (s, ONone)
       end
-  | Inject x p now fj => let '(e, o) := ep_deliver zlb_recv (ep s x) p now fj in (set_ep s x e, o)
+  | Inject x p now fj rc => let '(e, o) := ep_deliver zlb_recv (ep s x) p now fj rc in (set_ep s x e, o)
   | Tick x now drops => let '(e, o) := ep_tick (ep s x) now drops in (set_ep s x e, o)
   | SetWin x rws => let '(e, o) := ep_setwin (ep s x) rws in (set_ep s x e, o)
   end.
@@ -304,7 +322,7 @@ Definition init_sys (fa fb : Z * Z * Z * Z * Z) (oa ob : Z) : sys :=
   let '(bi, bm, br, bz, bw) := fb in
   mkS (new_endpoint ai am ar az aw oa ob) (new_endpoint bi bm br bz bw ob oa).
 
-Definition is_inject (ev : event) : bool := match ev with Inject _ _ _ _ => true | _ => false end.
+Definition is_inject (ev : event) : bool := match ev with Inject _ _ _ _ _ => true | _ => false end.
 Definition honest (evs : list event) : bool := forallb (fun e => negb (is_inject e)) evs.
 
 (* ---------- the whole dispatch rule for one tunnel (dispatch.go Dispatch, after parsing) ----------
@@ -315,7 +333,8 @@ Definition honest (evs : list event) : bool := forallb (fun e => negb (is_inject
    the receive step. *)
 Record node := mkN { n_known : bool;       (* the tunnel is registered *)
                      n_ep : endpoint }.
-Record inmsg := mkM { m_tid_ok : bool;     (* the header's tunnel id names this tunnel (and it is not an SCCRQ) *)
+Record inmsg := mkM { m_rc : rchoice;      (* the implementation's free choices for this message *)
+                      m_tid_ok : bool;     (* the header's tunnel id names this tunnel (and it is not an SCCRQ) *)
                       m_pkt : pkt;
                       m_replies : list (Z * Z);
                       m_removes : bool }.
@@ -338,7 +357,7 @@ Definition ep_flush (e : endpoint) (drops : list nat) : endpoint :=
    runner is stopped with it and nobody ticks the channel again *)
 Definition node_dispatch (n : node) (m : inmsg) (now : Z) : node :=
   if n_known n && m_tid_ok m then
-    let '(e1, ob) := ep_deliver false (n_ep n) (m_pkt m) now None in
+    let '(e1, ob) := ep_deliver false (n_ep n) (m_pkt m) now None (m_rc m) in
     match ob with
     | ODeliver true _ _ =>
         let e2 := ep_submits e1 (m_replies m) now in
@@ -367,9 +386,10 @@ Definition apply_peer_window (e : endpoint) (adv : option Z) : endpoint :=
 
 (* ---------- the tunnel runner's timer (internal/l2tp/runner.go loop) ----------
    after a Tick at [now] that returned [ret] the next Tick happens at: *)
-Definition runner_next (ret : option Z) (now : Z) : Z :=
+(* [poll] is the idle poll period: free, as long as it is positive (/repo HEAD: 500 ms) *)
+Definition runner_next (poll : Z) (ret : option Z) (now : Z) : Z :=
   match ret with
-  | None => now + 500                                   (* nothing pending: poll again in 500 ms, never park *)
+  | None => now + poll                                  (* nothing pending: poll again, never park *)
   | Some t => now + (if t - now <? 50 then 50 else t - now)
   end.
 
